@@ -415,6 +415,7 @@ type LoopInvClient interface {
 
 type Exec struct {
 	StrictConv     bool // integer conversions that may change the value yield opaque terms
+	NormSubslice   bool // s[lo:hi][j] is s[lo+j], len(s[lo:hi]) is hi-lo (opaque slices)
 	UniqueMake     bool // make([]T, n) yields a distinct term per site instead of an empty abstract list
 	HavocSlicePhis bool // loop-carried slices are unknown per iteration (not accumulated lists)
 	P              *Program
